@@ -22,7 +22,7 @@ from valjean.cosette.scheduler import Scheduler
 from . import vsched
 
 OUTCOMES_OK = ['done']
-OUTCOMES_FAIL = ['failed', 'raise']
+OUTCOMES_FAIL = ['failed', 'raise', 'raise_value', 'raise_type', 'raise_exit']
 OUTCOMES_MALFORMED = ['none', 'nonpair', 'triple', 'badstatus_str', 'badstatus_int',
                       'badupdate_int', 'badupdate_list', 'badupdate_emptylist', 'badupdate_zero',
                       'badupdate_emptystr']
@@ -62,6 +62,18 @@ def update_visible(env, name, version):
         return False
 
 
+def section_visible(env, name, version):
+    """Is the task's own section of ``expected_update`` readable (entries carried over from
+    an earlier run have no share in the common key)?"""
+    try:
+        section = env.get(name)
+        return (section['payload']['a'] == version
+                and section['payload']['nested']['b'] == version
+                and section['version'] == version and section['marker'] == name)
+    except (KeyError, TypeError):
+        return False
+
+
 class _NoController:
     """Stand-in used when the probe tasks run on real threads (vlib/realrun.py)."""
     @staticmethod
@@ -95,6 +107,7 @@ class Probe(Task):
                 'status': status,
                 'returned': dep.returned,
                 'visible': update_visible(env, dep.name, dep.version),
+                'visible0': section_visible(env, dep.name, 0),     # entry of an earlier run
                 'executions': dep.executions,
             }
         self.run.starts.append((self.name, seen))
@@ -108,6 +121,12 @@ class Probe(Task):
             return update, TaskStatus.FAILED
         if kind == 'raise':
             raise ProbeError(self.name)
+        if kind == 'raise_value':              # exception types that the worker itself handles
+            raise ValueError(self.name)        # for malformed results
+        if kind == 'raise_type':
+            raise TypeError(self.name)
+        if kind == 'raise_exit':               # not an Exception: a task calling sys.exit()
+            raise SystemExit(3)
         if kind == 'none':
             return None
         if kind == 'nonpair':
